@@ -215,14 +215,22 @@ def scratch_files(sc):
 # ---------------------------------------------------------------- one rule whose pattern names files x a command that names files
 TEMPLATES = {  # "@0", "@1": slots for spellings; everything else is a neutral word
     "name": ["@0"], "arg1": ["cat", "@0"], "arg2": ["zap", "-a", "@0"], "mid": ["zap", "@0", "backup"], "two": ["zap", "@0", "@1"],
+    "arg3": ["zap", "-a", "b", "@0"], "arg5": ["zap", "a", "-b", "c", "d", "@0"], "mid5": ["zap", "a", "b", "@0", "c", "d"],
+    "arg8": ["zap", "a", "b", "c", "d", "e", "f", "g", "@0"],
 }
+POSITIONS = ("arg1", "name", "arg2", "mid", "arg3", "arg5", "mid5", "arg8")     # the templates with one slot
 RULE_KINDS = ("command", "redirect", "alias", "after")
 TAILS = ["*", "*.py", "m?in.py", "[m]ain.py", "ma*", "*.log", "?", "[!m]*"]
 
 
+def case_cwd(sc, case):
+    return sub(sc, case.get("cwd") or "@CWD@")
+
+
 def build(sc, case):
     """case: {'rule': command|redirect|alias|after, 'dec', 'exact': bool, 'star': bool, 'msg': bool, 'tpl': name, 'extra': 0|1,
-    'p': [spellings in the pattern], 'q': [spellings in the command], 'same': bool, 'tail': None | glob text appended to p[0] + '/'}
+    'p': [spellings in the pattern], 'q': [spellings in the command], 'same': bool, 'tail': None | glob text appended to p[0] + '/',
+    'sep': white space between the words of the pattern (default one blank), 'cwd': working directory (default @CWD@)}
     -> (config text, command words / redirect target, expected: does the rule fire? - from `same`, or for a glob tail
     from fnmatch on the real paths)."""
     import fnmatch
@@ -233,12 +241,21 @@ def build(sc, case):
     pp = list(p)
     expected = bool(case["same"])
     real_p = real_q = None
+    cwd = case_cwd(sc, case)
     if case.get("tail"):
-        pp[0] = p[0].rstrip("/") + "/" + case["tail"]
-        real_d = os.path.realpath(os.path.join(sc.cwd, os.path.expanduser(p[0]) if p[0].startswith("~") else p[0]))
-        real_q = os.path.realpath(os.path.join(sc.cwd, os.path.expanduser(q[0]) if q[0].startswith("~") else q[0]))
-        real_p = real_d.rstrip("/") + "/" + case["tail"]
-        expected = fnmatch.fnmatchcase(real_q, real_p)
+        tail = case["tail"]
+        pp[0] = p[0].rstrip("/") + "/" + tail
+        real_d = os.path.realpath(os.path.join(cwd, os.path.expanduser(p[0]) if p[0].startswith("~") else p[0]))
+        real_q = os.path.realpath(os.path.join(cwd, os.path.expanduser(q[0]) if q[0].startswith("~") else q[0]))
+        if tail.startswith("**"):
+            # D/**, D/**/*, D/**/name (redirect rules only): the target lies below D (and has that base name)
+            under = real_q.startswith(real_d.rstrip("/") + "/")
+            base = tail[3:]
+            expected = under and (base in ("", "*") or os.path.basename(real_q) == base)
+            real_q = None
+        else:
+            real_p = real_d.rstrip("/") + "/" + tail
+            expected = fnmatch.fnmatchcase(real_q, real_p)
     kind = case["rule"]
     if kind == "redirect":
         return f"{dec}-redirect {pp[0]}{msg}", q[0], expected
@@ -254,7 +271,7 @@ def build(sc, case):
         if case.get("exact") and case.get("extra"):
             expected = False
         return f"alias {pp[0]} zap\n{dec} zap{anchor}{msg}", words, expected
-    pat = " ".join(fill(pp))
+    pat = (case.get("sep") or " ").join(fill(pp))     # blanks between the words of a pattern: any run of white space
     if case.get("star"):
         pat += " *"
     elif case.get("exact") and kind != "after":      # the `after` directive has no | anchor
@@ -271,7 +288,7 @@ def fired(C, sc, case, cfg_text, subject):
     from pathlib import Path
 
     cfg = C.parse_config(cfg_text)
-    cwd = Path(sc.cwd)
+    cwd = Path(case_cwd(sc, case))
     kind = case["rule"]
     if kind == "redirect":
         m = C.match_redirect(subject, cfg, cwd)
